@@ -172,9 +172,22 @@ def run_case(case):
             rA = run(instr=iA)
         elif kind == "extend_end":
             instr = gen.build_instructions(ps) if (ps is not None and u[4] < 0.5) else None
-            rA = run(instr=instr)
+            # optionally with a parameter scenario that has one point inside the short run and one after its end (the ramp
+            # towards the later point is in force before the short end, so it must look the same in both runs)
+            scen = None
+            cands = [p for p in spec["pars"] if p["db"] and not p["function"] and not p["timed"]]
+            if u[5] < 0.5 and cands:
+                p_ = cands[int(u[0] * len(cands)) % len(cands)]
+                pop_ = spec["pops"][int(u[1] * len(spec["pops"])) % len(spec["pops"])]
+                y_in = float(s["start"]) + (0.2 + 0.6 * u[2]) * (float(s["end"]) - float(s["start"]))
+                y_out = float(s["end"]) + float(s["dt"]) * (0.5 + 9.0 * u[3])
+                rng_ = np.random.default_rng(int(u[2] * 1e9))
+                scen = at.ParameterScenario(name="scen", interpolation="linear" if u[3] < 0.7 else "previous")
+                scen.add(p_["name"], pop_, [y_in, y_out], [gen.sample_value(rng_, p_["format"], "mild") + 0.01, gen.sample_value(rng_, p_["format"], "mild") + 0.02])
+                R.count("extension_with_scenario_point_after_the_short_end")
+            rA = run(parset=scen.get_parset(base_parset, P) if scen is not None else None, instr=instr)
             P.settings.update_time_vector(end=float(s["end"]) + float(s["dt"]) * (1 + int(u[0] * 10)) - (0.5 * s["dt"] if u[1] < 0.3 else 0.0))
-            rB = run(instr=instr)
+            rB = run(parset=scen.get_parset(base_parset, P) if scen is not None else None, instr=instr)
             tol = 1e-12
         else:
             raise RuntimeError(kind)
